@@ -906,11 +906,10 @@ func decInferLen(clen int, maxlen, unit uint) (n uint) {
 		}
 		return max(64/unit, minLenIfUnset)
 	}
-	if unit == 0 {
-		return uint(clen)
-	}
 	if maxlen == 0 {
-		maxlen = maxMem / unit
+		// zero-size elements (unit 0) cost no element memory, but the count still sizes
+		// what is made (map buckets): cap it as if an element took a byte
+		maxlen = maxMem / max(unit, 1)
 	}
 	return min(uint(clen), maxlen)
 }
